@@ -212,12 +212,18 @@ let verdict case impl =
           keys are that environment's keys WITHOUT the last request was not fully observed: it is
           counted as not run (capped by checks/c07.py), never `viol`. *)
        let trace_race () =
-         has_t && not as_drop &&
+         has_t &&
          List.exists (fun sc ->
              let (rq, o) = seq_run m sc in
              let mk = List.map req_key rq in
-             ctor_failed = ctor_fails m sc && obs_items o = oi && mk <> [] &&
-             ok = List.rev (List.tl (List.rev mk)))
+             if as_drop then
+               (* same race on a dropping case: with the model's next request appended the
+                  observation is accepted by accept_drop *)
+               (not (ctor_fails m sc)) && List.length ok < List.length mk &&
+               accept_drop m sc cnt oi (ok @ [List.nth mk (List.length ok)])
+             else
+               ctor_failed = ctor_fails m sc && obs_items o = oi && mk <> [] &&
+               ok = List.rev (List.tl (List.rev mk)))
            (script :: early_timeouts script) in
        if bad_keys then "error bad-keys" else
        if known then begin
